@@ -17,6 +17,7 @@ ID = 'C11'
 BUDGET = {'quick': 500, 'thorough': 40000}
 WALL = {'quick': 150, 'thorough': 3000}
 CHUNK = 6
+REACH_N = 20
 DET_K = 3
 CASE_TIMEOUT = 600
 SELFTEST = {'quick': 8, 'thorough': 96}
